@@ -386,6 +386,17 @@ Theorem quick_spelling rt m p1 p2 :
   quick_match rt m p1 = quick_match rt m p2.
 Proof. intros H. unfold quick_match, quick_match_gen. cbv zeta. rewrite H. reflexivity. Qed.
 
+(* InterceptAll: on a router with a non-empty intercept path the request path plays no role at all - every request is looked up
+   as the intercept path, which itself goes through formatPath like any request path (quick_match_gen true) *)
+Theorem quick_intercept rt m p1 p2 :
+  o_intercept (ropts rt) <> [] -> quick_match rt m p1 = quick_match rt m p2.
+Proof.
+  intros H. unfold quick_match, quick_match_gen. cbv zeta.
+  destruct (o_intercept (ropts rt)) as [|c q]; [congruence|]. cbn [nil_b]. reflexivity.
+Qed.
+(* (that InterceptAll(q) answers like the request q on the router without the option is read off quick_match_gen - both go through
+   format_path (o_strict _) q and the same match_ - and is exercised by the C11 flavour "intercept"; it is not a theorem here) *)
+
 (* the options of a router never change by lookups *)
 Lemma match_ropts rt m p : ropts (snd (match_ rt m p)) = ropts rt.
 Proof.
